@@ -2,23 +2,181 @@
 Engine S: the sequence of /repo's templated helpers that green_lagrange_strain::integrate and
 logarithmic_strain::integrate apply around a small strain behaviour (here Hooke's law) is traced with symv::Sym and
 printed as Coq definitions on every run; Coq proves Saint-Venant Kirchhoff / Hencky hyperelasticity in each stress measure and
-`tangent = derivative of the stress` (Coquelicot) for each tangent operator flavour (1D hypotheses), and SVK for PK2 in 3D
-for any F.  Tie: the traced expressions are compared, on seeded deformation gradients and moduli, with what the REAL
-wrappers (double) return through the generic-interface data structure for a Hooke behaviour, in 1D and 3D, for every
-K[1] x K[2]."""
+`tangent = derivative of the stress` (Coquelicot) for each tangent operator flavour (1D hypotheses, plane stress included), the three
+SVK stress measures for any F in 2D (plane stress included) and 3D.
+Tie 1: the traced expressions are compared, on seeded deformation gradients and moduli, with what the REAL wrappers (double) return
+through the generic-interface data structure for a Hooke behaviour (1D, 1D plane stress, 2D, 2D plane stress, 3D; every K[1] x K[2]).
+Tie 2 (second round): the three REAL wrappers (Green-Lagrange, Hencky, standard finite strain) are run for ALL seven hypotheses x
+K[1] x K[2] with behaviour classes whose axial strain / axial deformation gradient (plane stress) is an internal state variable that
+changes over the step, and judged by an independent oracle (oracle.py: SVK / Hencky closed forms with the TRUE end-of-step F,
+finite differences for the tangent operators)."""
+import math
 import os
+import re
+import sys
+import threading
 from vlib import guarded_main
+
+sys.path.insert(0, os.path.dirname(os.path.abspath(__file__)))
+import oracle as O  # noqa: E402
 
 SUPPORT = ["src/Exception/ContractViolation.cxx", "src/Exception/TFELException.cxx", "src/Material/MaterialException.cxx",
            "src/Material/LogarithmicStrainHandler.cxx", "src/Math/LUException.cxx", "src/Math/MathException.cxx",
            "src/Utilities/GenTypeCastError.cxx"]
+WN = ["green_lagrange", "hencky", "finite_strain"]
+LAW = ["svk", "hencky", "svk"]
+SMN = ["cauchy", "pk2", "pk1"]
+TN = ["dsig_df", "ds_degl", "dpk1_df", "dtau_ddf"]
+TOL_STRESS = 1e-8
+TOL_K = 2e-6
+
+
+def rot(axis, th):
+    c, s = math.cos(th), math.sin(th)
+    R = O.eye()
+    i, j = [(1, 2), (0, 2), (0, 1)][axis]
+    R[i][i] = c
+    R[j][j] = c
+    R[i][j] = -s
+    R[j][i] = s
+    return R
+
+
+def rand_F(rng, h, amp, rotamp):
+    """deformation gradient with the structure of the hypothesis: rotation (about z in 2D, any in 3D) times stretch + shear"""
+    d = O.DIM[h]
+    A = O.eye()
+    for i in range(3):
+        A[i][i] = 1 + amp * rng.uniform(-1, 1)
+    if d >= 2:
+        A[0][1] = 0.6 * amp * rng.uniform(-1, 1)
+        A[1][0] = 0.6 * amp * rng.uniform(-1, 1)
+    if d == 3:
+        for (i, j) in ((0, 2), (2, 0), (1, 2), (2, 1)):
+            A[i][j] = 0.6 * amp * rng.uniform(-1, 1)
+    R = O.eye()
+    if d >= 2:
+        R = rot(2, rotamp * rng.uniform(-1, 1))
+    if d == 3:
+        R = O.mul(rot(0, rotamp * rng.uniform(-1, 1)), O.mul(rot(1, rotamp * rng.uniform(-1, 1)), R))
+    return O.mul(R, A)
+
+
+def make_case(rng, w, h, sm, smf):
+    """true F0, F1 (3x3), moduli, value of the axial internal state variable at the beginning of the step"""
+    ax = O.AXIAL.get(h)
+    for _ in range(200):
+        la = 100e9 * (1.2 + rng.uniform(-1, 1))
+        mu = 80e9 * (1.2 + rng.uniform(-1, 1))
+        F0 = rand_F(rng, h, 0.25, 0.5)
+        F1 = rand_F(rng, h, 0.4, 3.0)
+        if O.det(F0) < 0.2 or O.det(F1) < 0.2:
+            continue
+        a0 = 0.0
+        if ax is not None:
+            try:
+                e0, z0 = O.axial_measure(LAW[w], la, mu, F0, ax)
+                e1, z1 = O.axial_measure(LAW[w], la, mu, F1, ax)
+            except ValueError:
+                continue
+            if not (0.3 < z0 < 3 and 0.3 < z1 < 3) or abs(z1 - z0) < 1e-3:
+                continue
+            F0[ax][ax] = z0
+            F1[ax][ax] = z1
+            a0 = z0 if w == 2 else e0
+        return (w, h, sm, smf, F0, F1, la, mu, a0)
+    raise RuntimeError("no admissible case")
+
+
+def oracle_tie(c, exe):
+    rng = c.rng
+    ns = c.pick(2, 14)
+    cases = [make_case(rng, w, h, sm, smf) for w in range(3) for h in range(7) for sm in range(3) for smf in range(4) for _ in range(ns)]
+    lines = []
+    for (w, h, sm, smf, F0, F1, la, mu, a0) in cases:
+        v0, v1 = O.mat_to_tensor(h, F0), O.mat_to_tensor(h, F1)
+        ax = O.AXIAL.get(h)
+        if ax is not None:
+            # the axial slot of the gradients in plane stress: the Green-Lagrange and finite strain wrappers ADD the axial
+            # deformation gradient to it (0 expected), the Hencky wrapper takes its logarithm and then replaces it (1: neutral)
+            given = 1.0 if w == 1 else 0.0
+            v0[ax] = given
+            v1[ax] = given
+        lines.append("%d %d %d %d %s %s %r %r %r" % (w, h, sm, smf, " ".join(repr(x) for x in v0), " ".join(repr(x) for x in v1), la, mu, a0))
+    rc, out, err = c.run([exe], input="\n".join(lines) + "\n", timeout=600)
+    res = out.splitlines()
+    if rc != 0 or len(res) != len(cases):
+        c.report("driver", "execution driver failed: " + err[-500:], {"stderr": err[-3000:]}, False)
+        return
+    seen = {}
+    nbad = 0
+
+    def fail(key, what, replay):
+        nonlocal nbad
+        nbad += 1
+        if key not in seen:
+            seen[key] = 1
+            c.report(key, what, replay, True)
+        else:
+            seen[key] += 1
+
+    for case, l in zip(cases, res):
+        (w, h, sm, smf, F0, F1, la, mu, a0) = case
+        t = l.split()
+        rcw = int(t[1])
+        n = O.tsize(h)
+        ax = O.AXIAL.get(h)
+        hn = O.HNAMES[h]
+        inp = {"wrapper": WN[w], "hypothesis": hn, "K1_stress_measure": SMN[sm], "K2_tangent": TN[smf], "F0_true": F0, "F1_true": F1,
+               "lambda": la, "mu": mu, "axial_isv_begin": a0}
+        c.count(1, (w, h, sm, smf), True)
+        if rcw != 1:
+            fail("oracle:%s:%s:rc" % (WN[w], hn), "%s wrapper, %s, K[1]=%s K[2]=%s returns %d (%s) on F1=%r" % (WN[w], hn, SMN[sm], TN[smf], rcw, t[-1][:200], F1), inp)
+            continue
+        vals = [float(x) for x in t[2:2 + n + n * n + 1]]
+        tf, K, isv = vals[:n], vals[n:n + n * n], vals[-1]
+        ref = O.stress_vector(h, sm, LAW[w], la, mu, F1, ax)
+        sc = max(abs(x) for x in ref)
+        got = tf[:len(ref)]
+        if not all(abs(a - b) <= TOL_STRESS * sc for a, b in zip(got, ref)):
+            fail("oracle:%s:%s:stress:%s" % (WN[w], hn, SMN[sm]),
+                 "%s wrapper, %s: %s stress returned %r, the %s closed form with the true end-of-step F gives %r (F1 = %r, lambda = %r, mu = %r)"
+                 % (WN[w], hn, SMN[sm], got, "Hencky" if w == 1 else "Saint-Venant Kirchhoff", ref, F1, la, mu), dict(inp, returned=got, expected=ref))
+        if ax is not None:
+            # the axial state variable exported by the behaviour is the one of the oracle (sanity of the mock, not of the wrapper)
+            e1, z1 = O.axial_measure(LAW[w], la, mu, F1, ax)
+            want = z1 if w == 2 else e1
+            if abs(isv - want) > 1e-9 * max(1.0, abs(want)):
+                fail("oracle:%s:%s:axial" % (WN[w], hn), "%s wrapper, %s: axial state variable %r, oracle %r" % (WN[w], hn, isv, want), inp)
+        if w == 2:
+            # the finite strain wrapper must hand the operator of the behaviour over untouched
+            if not all(K[i] == 1000 + i for i in range(n * n)):
+                fail("oracle:%s:%s:operator" % (WN[w], hn), "finite_strain wrapper, %s, K[1]=%s K[2]=%s: the tangent operator written by the behaviour "
+                     "was altered: %r" % (hn, SMN[sm], TN[smf], K[:n * n]), dict(inp, returned=K[:n * n]))
+            continue
+        rows, cols = O.tangent_shape(h, smf)
+        refK = O.tangent(h, smf, LAW[w], la, mu, F0, F1, ax)
+        gotK = [[K[i * cols + j] for j in range(cols)] for i in range(rows)]
+        sck = max(abs(x) for r in refK for x in r)
+        worst = max((abs(gotK[i][j] - refK[i][j]), i, j) if gotK[i][j] == gotK[i][j] else (float("inf"), i, j) for i in range(rows) for j in range(cols))
+        if not worst[0] <= TOL_K * sck:
+            i, j = worst[1], worst[2]
+            fail("oracle:%s:%s:%s" % (WN[w], hn, TN[smf]),
+                 "%s wrapper, %s, K[1]=%s: %s entry (%d,%d) = %r, central finite difference of the closed-form stress gives %r (scale %.3g; F0 = %r, "
+                 "F1 = %r, lambda = %r, mu = %r)" % (WN[w], hn, SMN[sm], TN[smf], i, j, gotK[i][j], refK[i][j], sck, F0, F1, la, mu),
+                 dict(inp, returned=gotK, expected=refK))
+    if nbad:
+        c.notes.append("oracle tie: %d of %d wrapper calls disagree with the closed forms / finite differences (%s)" % (nbad, len(cases), dict(seen)))
+    c.coverage["oracle_cases"] = len(cases)
+    c.sample({"oracle_case": {"wrapper": WN[cases[-1][0]], "hypothesis": O.HNAMES[cases[-1][1]], "F1": cases[-1][5]}})
 
 
 def main(c):
     exe = c.cxx("trace", ["trace.cxx"], SUPPORT)
+    drv = c.cxx("drive", ["drive.cxx"], SUPPORT)
     gen = os.path.join(c.work, "coq", "C55_gen.v")
     os.makedirs(os.path.dirname(gen), exist_ok=True)
-    rc, out, err = c.run([exe, "gen", gen, str(c.seed), str(c.pick(6, 60))])
+    rc, out, err = c.run([exe, "gen", gen, str(c.seed), str(c.pick(4, 40))])
     if rc != 0 or "END agree=" not in out:
         c.report("trace", "tracer failed on /repo's finite strain helpers / wrappers: " + err[-500:], {"stderr": err[-3000:]}, False)
         return
@@ -29,7 +187,7 @@ def main(c):
         n += 1
         t = l.split()
         c.count(1, t[1] + ":" + t[-1], True)
-        if n % 40 == 1:
+        if n % 60 == 1:
             c.sample({"agreement": l[:400]})
         if l.startswith("AGREE-FAIL"):
             # concrete input: wrapper, stress measure, operator, F0, F1, moduli
@@ -38,16 +196,54 @@ def main(c):
     c.coverage["traces_validated_against_impl"] = n
     c.trusted("engine S tracer (cxx/sym/sym.hxx), g++ template instantiation of the helpers with Sym",
               "props/C55/trace.cxx: the sequence of helper calls is transcribed from the wrapper headers; checked by agreement with the real "
-              "wrappers (double, relative 1e-10) on seeded F0, F1, lambda, mu for every K[1] x K[2], 1D and 3D",
-              "Hooke behaviour class of the tracer (stands for a generated small strain elastic behaviour)")
-    res = c.coq([gen, "C55Spec.v", "C55Proofs.v", "Properties_C55.v"], timeout=900)
-    if not res.ok:
+              "wrappers (double, relative 1e-10) on seeded F0, F1, lambda, mu for every K[1] x K[2]: 1D, 1D plane stress, 2D, 2D plane stress, 3D",
+              "behaviour classes of props/C55/mock.hxx (stand for generated behaviours: Hooke with an axial-strain state variable in plane stress, "
+              "Saint-Venant Kirchhoff finite strain behaviour with an axial-deformation-gradient state variable)",
+              "props/C55/oracle.py (closed forms and finite differences in floating point, tolerances 1e-8 / 2e-6 relative)")
+    oracle_tie(c, drv)
+
+    # ---- Coq: C55Proofs -> C55ProofsPS alongside C55Proofs3D, then the two property files alongside (at most 2 coqc at a time)
+    results = []
+
+    def stage(files):
+        r = c.coq(files, timeout=900)
+        results.append(r)
+        return r.ok
+
+    with3d = not c.quick()  # the two 3D lemmas cost about as much as everything else: thorough tier only
+    if stage([gen, "C55Spec.v"]):
+        oks = [True]
+        t3 = None
+        if with3d:
+            t3 = threading.Thread(target=lambda: oks.__setitem__(0, stage(["C55Proofs3D.v", "Properties_C55_3D.v"])))
+            t3.start()
+        if stage(["C55Proofs.v"]):
+            tp = threading.Thread(target=lambda: stage(["Properties_C55.v"]))
+            tp.start()
+            if stage(["C55ProofsPS.v"]):
+                stage(["Properties_C55_PS.v"])
+            tp.join()
+        if t3 is not None:
+            t3.join()
+    c.coverage["checker_cmd"] = ("coqc -Q coq/lib VLib -R <scratch> C55 <files: C55_gen.v C55Spec.v C55Proofs.v C55ProofsPS.v Properties_C55.v "
+                                 "Properties_C55_PS.v%s> (Coq 8.16.1, full .vo compilation)" % (" C55Proofs3D.v Properties_C55_3D.v" if with3d else ""))
+    failed = [r for r in results if not r.ok]
+    if failed:
+        reached = {f[0] for r in results for f in r.files}
+        for pf in ("Properties_C55.v", "Properties_C55_PS.v") + (("Properties_C55_3D.v",) if with3d else ()):
+            if pf not in reached:  # its theorems are undischarged obligations all the same
+                txt = open(os.path.join(c.dir, "coq", pf)).read()
+                c.coverage["obligations"] += len(re.findall(r"^Theorem ", txt, flags=re.M))
         if c.violations and any(v[3] for v in c.violations):
-            c.notes.append("proof obligations failed: %s; concrete failing inputs reported above" % [f[2] for f in res.failed])
+            c.notes.append("proof obligations failed: %s; concrete failing inputs reported above" % [f[:3] for r in failed for f in r.failed])
         else:
-            c.coq_failures(res)
-    c.coverage["rule"] = ("seeded random deformation gradients (stretches 0.4..1.6 in 1D, perturbations of the identity up to 0.25 in 3D), moduli, "
-                          "x wrapper {Green-Lagrange 1D/3D, Hencky 1D} x stress measure K[1] in {0,1,2} x operator K[2] in {0,1,2,3}")
+            for r in failed:
+                c.coq_failures(r)
+    c.coverage["rule"] = ("(1) seeded deformation gradients (stretches 0.4..1.6 in 1D, perturbations of the identity up to 0.25 in 2D/3D), moduli x traced "
+                          "pipeline {Green-Lagrange 1D / 1D plane stress / 2D / 2D plane stress / 3D, Hencky 1D} x K[1] in {0,1,2} x K[2] in {0,1,2,3}: real "
+                          "wrapper = traced expression; (2) seeded F0, F1 = rotation x (stretch 0.6..1.4 + shear), moduli x wrapper {Green-Lagrange, Hencky, "
+                          "standard finite strain} x 7 hypotheses x K[1] x K[2]: returned stress = closed form with the true end-of-step F (axial "
+                          "stretch from the end-of-step axial strain in plane stress), returned operator = central finite difference of the closed form")
 
 
 guarded_main("C55", main)
